@@ -28,8 +28,10 @@ Definition good (fuel : nat) (acc : list char) (s : list char) (out : list char)
 
 Lemma render_pre lit : render value (match lit with [] => [] | _ => [Lit lit] end) = lit.
 Proof. destruct lit; cbn; now rewrite ?app_nil_r. Qed.
-Lemma render_app a b : render value (a ++ b) = render value a ++ render value b.
-Proof. induction a as [|[s| |d w j] a IH]; cbn; rewrite ?IH, ?app_assoc; reflexivity. Qed.
+Lemma render_pre_app lit r : render value ((match lit with [] => [] | _ => [Lit lit] end) ++ r) = lit ++ render value r.
+Proof. destruct lit; reflexivity. Qed.
+Lemma render_cons cmp r : cmp <> Flush -> render value (cmp :: r) = render value [cmp] ++ render value r.
+Proof. destruct cmp as [s| |d w j]; intros H; [cbn; now rewrite app_nil_r|congruence|cbn; now rewrite app_nil_r]. Qed.
 
 (* a literal character extends the accumulator *)
 Lemma good_plain fuel acc c s out : (c =? 37) = false -> (c =? 92) = false ->
@@ -43,17 +45,29 @@ Qed.
 (* a special sequence: the accumulated literal is closed, one component is produced, parsing resumes *)
 Lemma good_special fuel acc c s cmp rest out1 out :
   (c =? 37) || (c =? 92) = true ->
-  (if c =? 92 then parse_escape s else parse_spec so s) = Ok (cmp, rest) ->
+  (if c =? 92 then parse_escape s else parse_spec so s) = Ok (cmp, rest) -> cmp <> Flush ->
   render value [cmp] = out1 ->
   length rest < fuel ->
   (forall f, length rest <= f -> good f [] rest out) ->
   good fuel acc (c :: s) (out1 ++ out).
 Proof.
-  intros Hc Hp Hr Hf Hrest. destruct fuel as [|f]; [lia|].
+  intros Hc Hp Hnf Hr Hf Hrest. destruct fuel as [|f]; [lia|].
   destruct (Hrest f ltac:(lia)) as (cs & E & R). cbn [app] in R.
   exists ((match acc with [] => [] | _ => [Lit acc] end) ++ cmp :: cs). split.
   - unfold parse_from. cbn [take_lit]. rewrite Hc. rewrite Hp. rewrite parse_S, E. reflexivity.
-  - rewrite render_app, render_pre. change (cmp :: cs) with ([cmp] ++ cs). rewrite render_app, Hr, R. reflexivity.
+  - rewrite render_pre_app, render_cons by exact Hnf. rewrite Hr, R. reflexivity.
+Qed.
+
+(* \c: the accumulated literal is written, and nothing after it - but the rest of the format must still be a format *)
+Lemma good_flush fuel acc s out : length s < fuel -> (forall f, length s <= f -> good f [] s out) ->
+  good fuel acc (92 :: 99 :: s) [].
+Proof.
+  intros Hf Hrest. destruct fuel as [|f]; [lia|]. destruct (Hrest f ltac:(lia)) as (cs & E & _).
+  exists ((match acc with [] => [] | _ => [Lit acc] end) ++ Flush :: cs). split.
+  - unfold parse_from. cbn [take_lit]. change ((92 =? 37) || (92 =? 92)) with true. cbv iota.
+    change (92 =? 92) with true. cbv iota. cbn [parse_escape]. change (is_octal 99) with false. cbv iota.
+    change (99 =? 99) with true. cbv iota. rewrite parse_S, E. reflexivity.
+  - rewrite render_pre_app. cbn [render]. reflexivity.
 Qed.
 
 Lemma take_digits_app ds : forall acc rest, forallb is_digit ds = true ->
@@ -100,18 +114,18 @@ Proof.
   induction items as [|i items IH]; intros fuel acc Hwf Hf.
   - exists (match acc with [] => [] | _ => [Lit acc] end). split; [unfold parse_from; cbn; reflexivity|]. cbn. now rewrite render_pre, app_nil_r.
   - cbn [forallb] in Hwf. apply andb_true_iff in Hwf as [Hi Hwf].
-    unfold show, render_ref in *. cbn [map concat] in *. fold (show items) in *. fold (render_ref value items) in *.
+    unfold show in *. cbn [map concat] in *. fold (show items) in *.
     rewrite app_length in Hf.
     assert (Hrest : forall f, length (show items) <= f -> good f [] (show items) (render_ref value items)) by (intros f Hl; now apply IH).
-    destruct i as [c|l|a b c| |d ds j]; cbn [show_item render_item] in *.
+    destruct i as [c|l|a b c| |d ds j]; cbn [show_item render_item render_ref] in *.
     + (* a character *)
       destruct (c =? 37) eqn:E37; [|destruct (c =? 92) eqn:E92].
       * apply Nat.eqb_eq in E37. subst c. cbn [app length] in *.
         apply (good_special fuel acc 37 (37 :: show items) (Lit [37]) (show items) [37]);
-          [reflexivity|cbn; reflexivity|cbn; reflexivity|lia|exact Hrest].
+          [reflexivity|cbn; reflexivity|discriminate|cbn; reflexivity|lia|exact Hrest].
       * apply Nat.eqb_eq in E92. subst c. cbn [app length] in *.
         apply (good_special fuel acc 92 (92 :: show items) (Lit [92]) (show items) [92]);
-          [reflexivity| |cbn; reflexivity|lia|exact Hrest].
+          [reflexivity| |discriminate|cbn; reflexivity|lia|exact Hrest].
         cbn [Nat.eqb parse_escape]. change (is_octal 92) with false. cbv iota. change (92 =? 99) with false. cbv iota.
         rewrite printf_escapes_ok. reflexivity.
       * cbn [app length] in *. apply good_plain; auto. apply IH; [assumption|lia].
@@ -120,20 +134,19 @@ Proof.
       apply negb_true_iff in Ho, Hc. cbn [app length] in *.
       destruct (assoc l printf_escapes) as [e|] eqn:Ea; [|discriminate].
       apply (good_special fuel acc 92 (l :: show items) (Lit [e]) (show items) [e]);
-        [reflexivity| |cbn; reflexivity|lia|exact Hrest].
+        [reflexivity| |discriminate|cbn; reflexivity|lia|exact Hrest].
       cbn [Nat.eqb parse_escape]. rewrite Ho, Hc, Ea. reflexivity.
     + (* \NNN *)
       apply andb_true_iff in Hi as [Hi Hc]. apply andb_true_iff in Hi as [Ha Hb]. cbn [app length] in *.
       apply (good_special fuel acc 92 (a :: b :: c :: show items) (Lit [octal_val a * 64 + octal_val b * 8 + octal_val c]) (show items)
-               [octal_val a * 64 + octal_val b * 8 + octal_val c]); [reflexivity| |cbn; reflexivity|lia|exact Hrest].
+               [octal_val a * 64 + octal_val b * 8 + octal_val c]); [reflexivity| |discriminate|cbn; reflexivity|lia|exact Hrest].
       cbn [Nat.eqb parse_escape]. rewrite Ha.
       assert (Hs : split_bytes 3 (a :: b :: c :: show items) = Some ([a; b; c], show items)).
       { rewrite !split_bytes_ascii by (apply octal_is_ascii; assumption). rewrite split_bytes_0. reflexivity. }
       rewrite Hs, Ha, Hb, Hc. reflexivity.
     + (* \c *)
       cbn [app length] in *.
-      apply (good_special fuel acc 92 (99 :: show items) Flush (show items) []);
-        [reflexivity|cbn [Nat.eqb parse_escape]; reflexivity|cbn; reflexivity|lia|exact Hrest].
+      apply (good_flush fuel acc (show items) (render_ref value items)); [lia|exact Hrest].
     + (* %[-]WIDTHd *)
       apply andb_true_iff in Hi as [Hi Hl]. apply andb_true_iff in Hi as [Hi Hd]. apply andb_true_iff in Hi as [Hi Ht].
       apply negb_true_iff in Ht. apply Nat.leb_le in Hl.
@@ -143,7 +156,7 @@ Proof.
       rewrite <- !app_assoc.
       apply (good_special fuel acc 37 ((match j with JLeft => [45] | JRight => [] end) ++ ds ++ [d] ++ show items)
                (Dir d (width_ref ds) j) (show items) (pad (width_ref ds) j (value d)));
-        [reflexivity| |cbn; now rewrite app_nil_r| |exact Hrest].
+        [reflexivity| |discriminate|cbn; now rewrite app_nil_r| |exact Hrest].
       * cbn [Nat.eqb]. unfold parse_spec.
         assert (Hsk : skip_flags ((match j with JLeft => [45] | JRight => [] end) ++ ds ++ [d] ++ show items) JRight =
                       Ok (j, ds ++ [d] ++ show items)).
